@@ -190,7 +190,7 @@ class AsyncHarness:
         return res
 
 
-def run_history(h: "AsyncHarness", history, wd=None, on_boundary=None, eps0=0, fixed_gs_eps=None, dirty=False, vary_rng=False):
+def run_history(h: "AsyncHarness", history, wd=None, on_boundary=None, eps0=0, fixed_gs_eps=None, dirty=False, vary_rng=False, vary_params=False):
     """Execute a call history on the harness' AsyncGraph.
 
     history: list of calls: "reset", "step", "step!" (override with own result), "run", "stop".
@@ -230,7 +230,15 @@ def run_history(h: "AsyncHarness", history, wd=None, on_boundary=None, eps0=0, f
         elif dirty:
             from flax.core import FrozenDict
             h.gs0 = h.gs0.replace(seq=FrozenDict({k: onp.int32(0) for k in h.nodes}), ts=FrozenDict({k: onp.float32(0.0) for k in h.nodes}))
+        if vary_params:
+            # every episode is given other params (system identification / domain randomisation loops do this): p + 3 * episode
+            from flax.core import FrozenDict
+            if not hasattr(h, "gs0_base_p"):
+                h.gs0_base_p = {k: int(onp.asarray(v.p)) for k, v in h.gs0.params.items()}
+            h.gs0 = h.gs0.replace(params=FrozenDict({k: probes.ProbeParams(p=onp.int32(v + 3 * eps)) for k, v in h.gs0_base_p.items()}))
         cur = dict(style=style, nsteps=0, override=False, sss=[], calls=[], eps=eps, gs_eps=gs_eps, noexec_ticks=[])
+        if vary_params:
+            cur["params_p"] = {k: v + 3 * eps for k, v in h.gs0_base_p.items()}
         if vary_rng:
             cur["gs0"] = h.gs0
 
